@@ -8,6 +8,12 @@ def repo_commits():
     return [l.split()[0] for l in out.splitlines() if " verif:" in " " + l]
 
 CHECKS = {
+ "C13": dict(
+  level="exploration", design="§4 C13",
+  technique="runtime monitoring: wall-clock measurement of Request/Oneway against scripted stalling peers (adapter, NATS, HTTP) with a min-of-3 rule, error-class and registry-size assertions, goroutine-dump criterion for never-returning calls",
+  text="Timeouts 1 ms..1 s (and sub-millisecond ones) x peer stall patterns (silent, late, blocked write, blocked flush, stalled HTTP body) x transports are executed three times each; a case violates only if even the fastest attempt overshoots T+max(300ms,T), returns the wrong error class, never returns (dump shows it parked in the library) or leaves a registration. Real-time property measured defensively.",
+  note="Regressions smaller than the allowance are missed by design; NATS Oneway and the 503 path are excluded; machine load can only make attempts slower, which the min-of-3 rule absorbs."),
+
  "C01": dict(
   level="exploration", design="§4 C01",
   technique="runtime monitoring: interleavings enumerated by DFS and enforced on the real adapter/NATS transports through verif yield points; hook-free concurrent stress with PRNG response plans; porcupine linearizability check of recorded registry histories",
